@@ -178,6 +178,17 @@ func (d *diffInfo) String() string {
 	return fmt.Sprintf("%s:%d: got %q, want %q", d.File, d.Line, clip(d.Got), clip(d.Want))
 }
 
+// shortPath makes a source path relative to the repository under check (or to GOROOT/src).
+func shortPath(file string) string {
+	if rest, ok := strings.CutPrefix(file, core.RepoDir()+"/"); ok {
+		return rest
+	}
+	if i := strings.LastIndex(file, "/src/"); i >= 0 {
+		return file[i+len("/src/"):]
+	}
+	return file
+}
+
 func clip(s string) string {
 	if len(s) > 120 {
 		return s[:120] + "…"
@@ -250,7 +261,9 @@ func compareCommitted(g *gram, o *output) []*diffInfo {
 
 // ---------------------------------------------------------------- reference store
 
-func refPath(refdir string, gi int) string { return filepath.Join(refdir, fmt.Sprintf("ref-%02d.json", gi)) }
+func refPath(refdir string, gi int) string {
+	return filepath.Join(refdir, fmt.Sprintf("ref-%02d.json", gi))
+}
 
 func saveRef(refdir string, gi int, o *output) error {
 	data, err := json.Marshal(o)
@@ -371,7 +384,7 @@ type rec struct {
 	Digest    string      `json:"digest,omitempty"`
 	Err       string      `json:"err,omitempty"`
 	Files     int         `json:"files,omitempty"`
-	N         int64       `json:"n,omitempty"`     // map iterations of one warm generation
+	N         int64       `json:"n,omitempty"`      // map iterations of one warm generation
 	NFirst    int64       `json:"nfirst,omitempty"` // ... of the first generation of the process
 	Small     int64       `json:"small,omitempty"`
 	Large     int64       `json:"large,omitempty"`
@@ -401,6 +414,8 @@ type rec struct {
 	Unstable string   `json:"unstable,omitempty"`
 	Skipped  int64    `json:"skipped,omitempty"`
 	Note     string   `json:"note,omitempty"`
+	Site     string   `json:"site,omitempty"`    // function that started the deviating map iteration
+	SitePos  string   `json:"sitepos,omitempty"` // its file:line
 }
 
 func controlled(f func()) (n, small, large int64) {
@@ -742,11 +757,12 @@ func workerOrder(w *core.Worker, gs []*gram) {
 				seamSet(0, k, off.E, off.D)
 				o = generate(g)
 				seamReset()
+				fn, pos := seamSite()
 				sum.Runs++
 				sum.Choices++
 				if o.digest() != b.digest {
-					w.Emit(rec{Phase: "order", G: gi, K: []int64{k}, Off: []offset{off}, Diff: compare(o, b.out),
-						Note: fmt.Sprintf("map with %d entries (table-backed=%v)", shape.Used, shape.Large)})
+					w.Emit(rec{Phase: "order", G: gi, K: []int64{k}, Off: []offset{off}, Diff: compare(o, b.out), Site: fn, SitePos: pos,
+						Note: fmt.Sprintf("a map with %d entries (table-backed=%v)", shape.Used, shape.Large)})
 					break // one counterexample per iteration is enough
 				}
 			}
@@ -799,11 +815,12 @@ func workerPairs(w *core.Worker, gs []*gram) {
 						seamSet(1, k2, o2.E, o2.D)
 						o := generate(g)
 						seamReset()
+						fn, pos := seamSite()
 						sum.Runs++
 						sum.Choices++
 						if !found && o.digest() != b.digest {
 							found = true
-							w.Emit(rec{Phase: "pairs", G: gi, K: []int64{k1, k2}, Off: []offset{o1, o2}, Diff: compare(o, b.out)})
+							w.Emit(rec{Phase: "pairs", G: gi, K: []int64{k1, k2}, Off: []offset{o1, o2}, Diff: compare(o, b.out), Site: fn, SitePos: pos, Note: "two maps"})
 						}
 					}
 					if found {
@@ -836,19 +853,25 @@ func workerOne(w *core.Worker, gs []*gram) {
 	}
 	o := generate(gs[gi])
 	seamReset()
-	w.Emit(rec{Phase: "one", G: gi, Diff: compare(o, b.out), N: b.n})
+	fn, pos := seamSite()
+	w.Emit(rec{Phase: "one", G: gi, Diff: compare(o, b.out), N: b.n, Site: fn, SitePos: pos})
 }
 
 // reps (fallback without the overlay): case (grammar, rep): plain repetitions under the real,
-// randomized runtime. args: reps <refdir> <reps>
+// randomized runtime. args: reps <refdir> <reps> <deadline unix>
 func workerReps(w *core.Worker, gs []*gram) {
 	refs := &refCache{dir: w.Args[1]}
 	reps, _ := strconv.Atoi(w.Args[2])
-	var runs int64
+	deadline, _ := strconv.ParseInt(w.Args[3], 10, 64)
+	var runs, skipped int64
 	for gi, g := range gs {
 		for r := 0; r < reps; r++ {
 			idx := gi*reps + r
 			if !w.Mine(idx) {
+				continue
+			}
+			if deadline > 0 && time.Now().Unix() > deadline {
+				skipped++
 				continue
 			}
 			w.Case(idx, fmt.Sprintf("rep %s #%d", g.Name, r))
@@ -863,7 +886,7 @@ func workerReps(w *core.Worker, gs []*gram) {
 			}
 		}
 	}
-	w.Emit(rec{Phase: "reps-done", Runs: runs})
+	w.Emit(rec{Phase: "reps-done", Runs: runs, Skipped: skipped})
 }
 
 // ---------------------------------------------------------------- parent side
@@ -932,9 +955,10 @@ func selfTest() error {
 }
 
 type agg struct {
-	mu sync.Mutex
-	c  *core.Ctx
-	gs []*gram
+	mu           sync.Mutex
+	c            *core.Ctx
+	gs           []*gram
+	orderFlagged map[int]bool // grammars for which the enumeration found a map-order dependence
 }
 
 func (a *agg) name(gi int) string {
@@ -1096,7 +1120,7 @@ func run(c *core.Ctx) {
 	if ctl {
 		a.orderPhase(refdir, refRecs, small, dl, covered)
 	} else {
-		a.repsPhase(refdir)
+		a.repsPhase(refdir, dl)
 	}
 	endPhase("map_order_small_grammars")
 
@@ -1218,11 +1242,19 @@ func (a *agg) freshPhase(refdir string, ctl bool) {
 					what := fmt.Sprintf("%s generated in a fresh process (GOMAXPROCS=%d, map order %s) differs from the reference process: %s", g.Name, j.gmp,
 						map[string]string{"ctl": "controlled, offset 0", "rand": "random as in the unpatched runtime"}[j.mode], r.Diff)
 					// A fresh process with the real random map order that disagrees with the reference while the
-					// offset-0 runs agree can only be a map-order dependence: same key family as the enumeration,
-					// so that one finding has one key however it was first seen.
+					// offset-0 runs agree can only be a map-order dependence. It is a sample: reported only when
+					// the (deterministic) enumeration did not already flag this grammar.
 					key := "fresh:" + g.Name + ":" + r.Diff.File
 					if j.mode == "rand" {
-						key = "maporder:" + g.Name + ":" + r.Diff.File
+						a.mu.Lock()
+						explained := a.orderFlagged[j.gi]
+						a.mu.Unlock()
+						if explained {
+							// already reported, deterministically, by the enumeration of this grammar
+							c.Outcome("fresh:random-order-differs(explained by the enumerated map-order finding)", 1)
+							return
+						}
+						key = "maporder-random:" + g.Name + ":" + r.Diff.File
 					}
 					c.Violate(key, what, replayCase{Kind: "fresh", Grammar: g.Name, Gmp: j.gmp, Mode: j.mode})
 				} else {
@@ -1416,9 +1448,21 @@ func (a *agg) orderRecord(raw json.RawMessage, progress map[int]*rec) {
 			rc.E = append(rc.E, o.E)
 			rc.D = append(rc.D, o.D)
 		}
-		what := fmt.Sprintf("output of %s depends on map iteration order: starting map iteration #%v of the generation at entry offset %v instead of 0 %s changes %s",
-			g.Name, r.K, rc.E, r.Note, r.Diff)
-		c.Violate("maporder:"+g.Name+":"+r.Diff.File, what, rc)
+		site, where := r.Site, ""
+		if site == "" {
+			site = g.Name + ":" + r.Diff.File
+		} else {
+			where = fmt.Sprintf(" (the `for range` in %s, %s)", r.Site, r.SitePos)
+		}
+		what := fmt.Sprintf("output of %s depends on Go's map iteration order: starting map iteration #%v of the generation%s over %s at entry offset %v instead of 0 changes %s",
+			g.Name, r.K, where, r.Note, rc.E, r.Diff)
+		a.mu.Lock()
+		if a.orderFlagged == nil {
+			a.orderFlagged = map[int]bool{}
+		}
+		a.orderFlagged[r.G] = true
+		a.mu.Unlock()
+		c.Violate("maporder:"+site, what, rc)
 	}
 }
 
@@ -1499,9 +1543,9 @@ func (a *agg) pairsPhase(refdir string, refRecs []*rec, gis []int, dl string) {
 		}})
 }
 
-func (a *agg) repsPhase(refdir string) {
+func (a *agg) repsPhase(refdir, dl string) {
 	c := a.c
-	c.RunShards(core.ShardOpts{N: 16, Silence: longSilence, Args: []string{"reps", refdir, "32"},
+	c.RunShards(core.ShardOpts{N: 16, Silence: longSilence, Args: []string{"reps", refdir, "32", dl},
 		OnRecord: func(_ int, raw json.RawMessage) {
 			var r rec
 			if json.Unmarshal(raw, &r) != nil {
@@ -1513,6 +1557,9 @@ func (a *agg) repsPhase(refdir string) {
 				c.Transitions(r.Runs)
 				c.Traces(r.Runs)
 				c.Add("plain_repetitions(sampling)", r.Runs)
+				if r.Skipped > 0 {
+					c.Capped(fmt.Sprintf("plain repetitions: %d not run before the deadline", r.Skipped))
+				}
 			case "reps":
 				if r.Diff != nil {
 					g := a.gs[r.G]
@@ -1626,7 +1673,7 @@ func replay(c *core.Ctx, raw json.RawMessage) error {
 			OnRecord: func(_ int, raw json.RawMessage) {
 				var r rec
 				if json.Unmarshal(raw, &r) == nil && r.Phase == "one" && r.Diff != nil {
-					failure = fmt.Errorf("%s with map iteration %v at offsets e=%v d=%v: %s", rc.Grammar, rc.K, rc.E, rc.D, r.Diff)
+					failure = fmt.Errorf("%s with map iteration %v (%s %s) at offsets e=%v d=%v: %s", rc.Grammar, rc.K, r.Site, r.SitePos, rc.E, rc.D, r.Diff)
 				}
 			},
 			OnDeath: func(idx int, desc, how, tail string) { failure = fmt.Errorf("%s: process died: %s", desc, how) }})
